@@ -43,6 +43,7 @@ type Puppet struct {
 	log   []k4rec
 	calls func(p *Puppet, from gen.PID, ref gen.Ref, req any) (any, error) // request behaviour
 	onMsg func(p *Puppet, from gen.PID, m any) error                       // optional override for plain messages
+	onLog func(p *Puppet, m gen.MessageLog) error                          // when the puppet is registered as a logger
 	termd  atomic.Bool
 	nOnMsg atomic.Int32
 }
@@ -141,6 +142,13 @@ func (p *Puppet) HandleCall(from gen.PID, ref gen.Ref, req any) (any, error) {
 		return p.calls(p, from, ref, req)
 	}
 	return req, nil
+}
+
+func (p *Puppet) HandleLog(m gen.MessageLog) error {
+	if p.onLog != nil {
+		return p.onLog(p, m)
+	}
+	return nil
 }
 
 func (p *Puppet) HandleEvent(ev gen.MessageEvent) error {
